@@ -1,4 +1,5 @@
 import Failsafe.Breaker
+import Failsafe.Lemmas.Clock
 import Failsafe.Lemmas.Ring
 import Failsafe.Lemmas.Timed
 /-!
@@ -434,5 +435,24 @@ example :
     let b1 := record c (record c (record c (B.new c) 0 false) 0 true) 0 false
     b1.tag = .opened ∧ (tryAcquire c b1 49).2 = false ∧ (tryAcquire c b1 50).2 = true ∧
     (record c (tryAcquire c b1 50).1 50 true).tag = .closed := by decide
+
+/-! ## Inside policy compositions the breaker is only ever driven at non-decreasing instants
+
+The theorems above take operation sequences at non-decreasing clock values. In the composition model time passes *during* an
+execution (an invocation of the wrapped function may advance the clock, `Exec.Item.adv`); the clock a breaker or rate limiter is
+consulted with never goes back, for every policy list and every layer of it. -/
+
+/-- **the clock never goes back during an execution**: if every remaining invocation advances the clock by a non-negative amount,
+every layer of every stack leaves the clock at or after where it found it (and that hypothesis still holds afterwards, so the
+statement chains over successive executions) -/
+theorem composition_clock_monotone (fuel : Nat) (ps : List Failsafe.Exec.Policy) (pos : Nat) (r : Failsafe.Exec.Run) (res : Failsafe.PR)
+    (r' : Failsafe.Exec.Run) (h : Failsafe.Exec.executeStack fuel pos ps r = some (res, r')) (hnn : Failsafe.Lemmas.Clock.NN r) :
+    r.w.now ≤ r'.w.now ∧ Failsafe.Lemmas.Clock.NN r' :=
+  Failsafe.Lemmas.Clock.executeStack_clock fuel ps pos r res r' h hnn
+
+/-- the same for whatever a single policy wraps: a layer whose inside never turns the clock back does not either -/
+theorem layer_clock_monotone (t0 : Int) (fuel pos : Nat) (p : Failsafe.Exec.Policy) (inner : Failsafe.Exec.Layer)
+    (hi : Failsafe.Lemmas.Clock.Preserves t0 inner) : Failsafe.Lemmas.Clock.Preserves t0 (Failsafe.Exec.applyPolicy fuel pos p inner) :=
+  Failsafe.Lemmas.Clock.applyPolicy_preserves t0 fuel pos p inner hi
 
 end Failsafe.Props.C03
